@@ -121,6 +121,25 @@ class PathModel(ClassModel):
             o = I.world.lib.b_str(I, o)
         return I.alloc('Path', {'s': SV(STR, z3.Concat(I.getfield(p, 's').t, z3.StringVal('/'), o.t))})
 
+    # questions about the file system: its state is not part of the program state under contract -- any answer (a fresh boolean per question)
+    def _fs_question(self, I, p, what):
+        return SV(BOOL, z3.Bool(I.path.name(f'fs_{what}')))
+
+    def m_is_dir(self, I, p):
+        return self._fs_question(I, p, 'is_dir')
+
+    def m_is_file(self, I, p):
+        return self._fs_question(I, p, 'is_file')
+
+    def m_exists(self, I, p):
+        return self._fs_question(I, p, 'exists')
+
+    def p_parent(self, I, p):
+        return I.alloc('Path', {'s': SV(STR, z3.String(I.path.name('parent_of_path')))})
+
+    def p_name(self, I, p):
+        return SV(STR, z3.String(I.path.name('name_of_path')))
+
 
 def make_file_world(entry_val='Enum:TaskStatus'):
     w = make_world()
@@ -252,11 +271,33 @@ def c_read_env():
         I.path.assume(I.spec("all('status' in e.dictionary[k] for k in e.dictionary)", Scope_(None, {'e': e})))
         return e
     c_ff = Contract(ENVF, 'Env.from_file', params={'cls': 'Class:Env', 'path': 'Str', 'fmt': 'Str'}, returns=from_file_result, signals={})
+    # ghost counter: every name of the list is looked at (no early exit from the loop); per name: its file is read once and, when readable, merged once (trace, below)
     c = Contract(COMMONF, 'read_env', params={'root': 'Str', 'names': 'Seq[Str]', 'filename': 'Opt[Str]', 'fmt': 'Str'},
-                 ensures=[('C14-only-DONE-entries-are-reported', only_done.replace('env.', 'result.')), ('returns-an-environment', 'isinstance(result, Env)')],
+                 ensures=[('C14-only-DONE-entries-are-reported', only_done.replace('env.', 'result.')), ('returns-an-environment', 'isinstance(result, Env)'),
+                          ('C04-C14-the-environment-of-every-listed-task-is-looked-for', 'filename is None or ghost_visited == len(names)')],
                  signals={},
-                 loops={0: LoopSpec('for task_name in names', [only_done], vars={'env.dictionary': DICT})})
+                 loops={0: LoopSpec('for task_name in names', [only_done, 'ghost_visited == done'], vars={'env.dictionary': DICT, 'ghost_visited': 'Int'},
+                                    ghost_names={'ghost_visited'}, ghost_init=['ghost_visited = 0'], ghost_step=['ghost_visited = ghost_visited + 1'])})
     return c, c_ff
+
+
+def read_env_setup(I, scope):
+    file_setup(I, scope)
+    scope.set('ghost_visited', SV(INT, z3.IntVal(0)))
+    I.trace = getattr(I, 'trace', None) or []
+
+
+def read_env_step(I, scope, ordinal):
+    '''one iteration of `for task_name in names`: Env.from_file is called once, on root/task_name/filename, and a readable result is merged once'''
+    p = I.path
+    L = f'{COMMONF}::read_env'
+    calls = [e for e in I.calls_seen if e[0] == 'Env.from_file']
+    merges = [e for e in I.calls_seen if e[0] == 'Env.merge_done_tasks']
+    p.oblige(f'{L}::inv-step::C04-C14-the-file-of-the-task-is-read-once', len(calls) == 1, kind='inv-step', meta={'expr': f'one Env.from_file per listed task (calls: {len(calls)})'})
+    if len(calls) == 1:
+        res = calls[0][1]
+        p.oblige(f'{L}::inv-step::C04-C14-a-readable-environment-is-merged-once', (len(merges) == 1 and merges[0][2] is res) if res is not None else len(merges) == 0, kind='inv-step',
+                 meta={'expr': 'env.merge_done_tasks(persisted_env) exactly when from_file returned an environment'})
 
 
 def unit_from_file(tier, pid):
@@ -275,15 +316,30 @@ def unit_to_file(tier, pid):
     return {'functions': out, 'assumptions': ['pickle.dump does not raise for picklable payloads (the property quantifies over picklable payloads)']}
 
 
-def unit_read_env(tier, pid):
+def unit_read_env(tier, pid, replay=None):
     w = make_file_world()
     c, c_ff = c_read_env()
     w.add(c_ff)
     cm = c_merge_done()
     cm.modifies = ['self.dictionary']
     w.add(cm)
-    res = verify_function(w, c, setup=file_setup)
-    return {'functions': [prop.discharge(res, tier, pid, _conc_pickle, _replay_persist)],
+    def setup(I, scope):
+        read_env_setup(I, scope)
+        I.calls_seen = []
+        orig = I.apply_contract
+
+        def apply_contract(cc, args, kwargs, recv=None, node=None):
+            out = orig(cc, args, kwargs, recv=recv, node=node)
+            I.calls_seen.append((cc.qual, out, (args[0] if args else None)))
+            return out
+        I.apply_contract = apply_contract
+
+    def stmt_hook(I, st, scope):
+        # the calls of one iteration: the list is emptied when the first statement of the loop body starts
+        if isinstance(st, ast.Assign) and any(isinstance(t, ast.Name) and t.id == 'task_file' for t in st.targets):
+            I.calls_seen = []
+    res = verify_function(w, c, setup=setup, hooks={'step-end': read_env_step, 'stmt': stmt_hook})
+    return {'functions': [prop.discharge(res, tier, pid, _conc_pickle, replay or _replay_persist)],
             'assumptions': ['A-env-entries: every entry of a persisted Env carries a status key (entries are written by Env.set_status / the scheduler)']}
 
 
